@@ -285,6 +285,135 @@ fn fam_ecl_olde(rng: &mut Rng, idx: usize) -> Input {
     }
 }
 
+/// several definitions of the same intrinsic family in one language: the built-in decrement jump plus the other form
+/// from a user mapfile (`times(..)` picks the "preferred" one), and core intrinsics duplicated on new opcodes
+fn fam_intrinsic_families(rng: &mut Rng, idx: usize) -> Input {
+    // (tool, game, core form is `>`?, signature of the decrement jump, counter register, mapfile magic, core mapfile)
+    let variants: [(&str, &str, bool, &str, &str, &str, &str); 5] = [
+        ("truecl", "8", true, "toS", "$REG[10002]", "!eclmap", "any.eclm"),
+        ("truecl", "7", true, "toS", "$REG[10002]", "!eclmap", "any.eclm"),
+        ("truanm", "8", true, "Sot", "$REG[10002]", "!anmmap", "any.anmm"),
+        ("truecl", "6", true, "toS", "$REG[-10003]", "!eclmap", "any.eclm"),
+        ("truanm", "12", false, "Sot", "$REG[10002]", "!anmmap", "any.anmm"),
+    ];
+    let (tool, game, core_is_gt, sig, reg, magic, core_map) = variants[idx % variants.len()];
+    let mut m = format!("{}\n!ins_signatures\n999 {}\n", magic, sig);
+    // duplicates of other intrinsic families on fresh opcodes (the later definition wins, deterministically)
+    let dups = [("SS", "AssignOp(op=\"=\"; type=\"int\")"), ("SS", "AssignOp(op=\"+=\"; type=\"int\")"), ("SSS", "BinOp(op=\"+\"; type=\"int\")"),
+                ("SSS", "BinOp(op=\"*\"; type=\"int\")"), ("ff", "AssignOp(op=\"=\"; type=\"float\")")];
+    let ndup = rng.range(0, 3) as usize;
+    let mut chosen = vec![];
+    for k in 0..ndup { let d = *rng.pick(&dups); if tool == "truecl" && game != "6" || tool == "truanm" { chosen.push((990 + k, d)); } }
+    for (op, d) in &chosen { let _ = writeln!(m, "{} {}", op, d.0); }
+    let _ = writeln!(m, "!ins_intrinsics\n999 CountJmp({})", if core_is_gt { "" } else { "op=\">\"" });
+    for (op, d) in &chosen { let _ = writeln!(m, "{} {}", op, d.1); }
+    let n = rng.range(2, 9);
+    let body = format!("    times({}={}) {{ $REG[10001] = $REG[10001] + {}; }}\n{}", reg, n, rng.range(1, 5),
+                       if rng.chance(1, 2) { "    $REG[10000] = $REG[10001] * 3;\n    times($REG[10000]=2) { $REG[10001] = 0; }\n" } else { "" });
+    let body = if game == "6" { body.replace("$REG[10001]", "$REG[-10001]").replace("$REG[10000]", "$REG[-10002]") } else { body };
+    let (src, ext) = if tool == "truecl" {
+        (format!("#pragma mapfile \"{}\"\n#pragma mapfile \"m.map\"\n\nscript timeline0 {{}}\n\nvoid sub0() {{\n{}}}\n", map(core_map), body), "ecl")
+    } else {
+        (format!("#pragma mapfile \"{}\"\n#pragma mapfile \"m.map\"\n{}\nscript script0 {{\n{}}}\n", map(core_map), ANM_ENTRY, body), "anm")
+    };
+    let out = format!("out.{}", ext);
+    Input {
+        family: format!("{}{}-intrinsic-families", &tool[3..], game), tag: String::new(), perm: false,
+        files: vec![("m.map".into(), m.into_bytes()), ("in.spec".into(), src.into_bytes())],
+        steps: vec![
+            step(&[tool, "compile", "-g", game, "in.spec", "-o", &out], &[&out]),
+            step(&[tool, "decompile", "-g", game, "-m", &map(core_map), "-m", "m.map", &out], &[]),
+        ],
+    }
+}
+
+/// the same opcode number / name / const defined in two instruction languages or sections of one mapfile
+/// (ECL subs and timelines share a process): with and without signature errors on the shared opcode
+fn fam_cross_language(rng: &mut Rng, idx: usize) -> Input {
+    let with_errors = idx % 2 == 0;
+    let nshared = rng.range(1, 3);
+    let game = ["6", "7", "8"][idx % 3];
+    let mut sigs = String::new();
+    let mut tsigs = String::new();
+    let mut names = String::new();
+    let mut tnames = String::new();
+    for k in 0..nshared {
+        let op = 700 + 10 * k;
+        if with_errors {
+            let _ = writeln!(sigs, "{} S(enum=\"{}\")", op, ident(rng, "NoSub"));
+            let _ = writeln!(tsigs, "{} S(enum=\"{}\")", op, ident(rng, "NoTimeline"));
+        } else {
+            let _ = writeln!(sigs, "{} S(enum=\"Shared\")", op);
+            let _ = writeln!(tsigs, "{} S(enum=\"Shared\")", op);
+        }
+        let nm = ident(rng, "both");
+        let _ = writeln!(names, "{} {}", op, nm);
+        let _ = writeln!(tnames, "{} {}", op, nm);
+    }
+    let m = format!("!eclmap\n!ins_signatures\n{}!timeline_ins_signatures\n{}!ins_names\n{}!timeline_ins_names\n{}!enum(name=\"Shared\")\n1 one\n2 two\n!enum(name=\"Other\")\n1 one\n3 three\n",
+                    sigs, tsigs, names, tnames);
+    let src = format!("#pragma mapfile \"{}\"\n#pragma mapfile \"m.eclm\"\n\nscript timeline0 {{\n    ins_700(two);\n}}\n\nvoid sub0() {{\n    ins_700(Shared.two);\n    ins_700(three);\n}}\n", map("any.eclm"));
+    Input {
+        family: if with_errors { "ecl-cross-language-errors".into() } else { "ecl-cross-language".into() },
+        tag: String::new(), perm: with_errors,
+        files: vec![("m.eclm".into(), m.into_bytes()), ("in.spec".into(), src.into_bytes())],
+        steps: vec![
+            step(&["truecl", "compile", "-g", game, "in.spec", "-o", "out.ecl"], &["out.ecl"]),
+            step(&["truecl", "decompile", "-g", game, "-m", &map("any.eclm"), "-m", "m.eclm", "out.ecl"], &[]),
+        ],
+    }
+}
+
+/// blocks that declare two or more same-typed locals, followed by further locals and temporaries (the order in which a
+/// block's locals are released decides which registers the later ones get), nested; stackless languages
+fn fam_block_locals(rng: &mut Rng, idx: usize) -> Input {
+    let (tool, game) = [("truecl", "6"), ("truanm", "12"), ("truecl", "7"), ("truecl", "8")][idx % 4];
+    // (ANM has four integer scratch registers: the fixed registers used here are not among them, and blocks are not nested)
+    let (r0, r1) = if game == "6" { ("$REG[-10001]", "$REG[-10002]") } else if tool == "truanm" { ("$REG[10008]", "$REG[10009]") } else { ("$REG[10000]", "$REG[10001]") };
+    let maxdepth = if tool == "truanm" { 0 } else { 1 };
+    let mut body = String::new();
+    let mut counter = 0;
+    fn block(rng: &mut Rng, depth: i64, body: &mut String, counter: &mut i64, r0: &str, ind: usize) {
+        let pad = " ".repeat(ind);
+        let _ = writeln!(body, "{}{{", pad);
+        let n = rng.range(2, 3);
+        let mut vs = vec![];
+        for _ in 0..n { *counter += 1; vs.push(format!("v{}", counter)); let _ = writeln!(body, "{}    int {} = {};", pad, vs.last().unwrap(), rng.range(1, 20)); }
+        let _ = writeln!(body, "{}    {} = {} + {};", pad, vs[0], vs[0], vs[1]);
+        if depth > 0 && rng.chance(1, 2) { block(rng, depth - 1, body, counter, r0, ind + 4); }
+        let _ = writeln!(body, "{}    {} = {};", pad, r0, vs[0]);
+        let _ = writeln!(body, "{}}}", pad);
+    }
+    let nblocks = rng.range(1, 2);
+    for round in 0..nblocks {
+        // every round but the last is wrapped in a block of its own, so that its locals are released again
+        let wrap = round + 1 < nblocks;
+        if wrap { body.push_str("    {\n"); }
+        block(rng, maxdepth, &mut body, &mut counter, r0, 4);
+        let n = if tool == "truanm" { 2 } else { rng.range(2, 3) };
+        let mut vs = vec![];
+        for _ in 0..n { counter += 1; vs.push(format!("v{}", counter)); let _ = writeln!(body, "    int {} = {};", vs.last().unwrap(), rng.range(1, 20)); }
+        let _ = writeln!(body, "    {} = {} + {};", vs[0], vs[0], vs[1]);
+        if tool == "truanm" { let _ = writeln!(body, "    {} = {} * {};", r1, vs[0], vs[1]); }
+        else { let _ = writeln!(body, "    {} = {} * ({} + {});", r1, vs[0], vs[1], r0); }
+        if wrap { body.push_str("    }\n"); }
+    }
+    let (src, ext, core_map) = if tool == "truecl" {
+        (format!("#pragma mapfile \"{}\"\n\nscript timeline0 {{}}\n\nvoid sub0() {{\n{}}}\n", map("any.eclm"), body), "ecl", "any.eclm")
+    } else {
+        (format!("#pragma mapfile \"{}\"\n{}\nscript script0 {{\n{}}}\n", map("any.anmm"), ANM_ENTRY, body), "anm", "any.anmm")
+    };
+    let out = format!("out.{}", ext);
+    Input {
+        family: format!("{}{}-block-locals", &tool[3..], game), tag: String::new(), perm: false,
+        files: vec![("in.spec".into(), src.into_bytes())],
+        steps: vec![
+            step(&[tool, "compile", "-g", game, "in.spec", "-o", &out, "--output-debug-info", "dbg.json"], &[&out, "dbg.json"]),
+            step(&[tool, "decompile", "-g", game, "-m", &map(core_map), &out], &[]),
+        ],
+    }
+}
+
 /// several diagnostics of different kinds in one compilation (type errors, unknown names, bad arity)
 fn fam_many_errors(rng: &mut Rng, idx: usize) -> Input {
     let mut src = format!("#pragma mapfile \"{}\"\n{}\n", map("any.anmm"), ANM_ENTRY);
@@ -597,7 +726,8 @@ fn main() {
     let mut rng = Rng::new(seed_from_env());
     let mut inputs: Vec<Input> = vec![];
     type Fam = fn(&mut Rng, usize) -> Input;
-    let fams: [Fam; 7] = [fam_multi_names, fam_too_complex, fam_mapfile_enums, fam_bad_enum_sigs, fam_anm_general, fam_ecl_olde, fam_many_errors];
+    let fams: [Fam; 10] = [fam_intrinsic_families, fam_cross_language, fam_block_locals, fam_multi_names, fam_too_complex, fam_mapfile_enums,
+                           fam_bad_enum_sigs, fam_anm_general, fam_ecl_olde, fam_many_errors];
     // round-robin over the families, so that a run cut short by the time budget has seen every family
     for i in 0..per_family {
         for f in fams.iter() { let mut r = rng.fork(); inputs.push(f(&mut r, i)); }
